@@ -431,3 +431,147 @@ def update_attributes_for(rng, feats):
         else:
             upd[rng.choice([k for k in ADDED_KEYS if k not in present])] = [rng.choice(WORDS + ["u1", "3"])]
     return upd
+
+
+# -- workload classes added in round 4 ------------------------------------------------------------------------------------
+# (a) neighbours built by the CALLER from a plain dict whose values are BARE STRINGS: an attrs entry [key, "value"] (a str
+#     instead of a list) is written into the plain dict as that string; "assign": [[key, "value"], ...] are item assignments
+#     f.attributes[key] = "value" made after construction; "build" says how the Feature is constructed
+PARENTS = ["mRNA1", "mRNA1", "t2", "g1.t10", "tx", "été1"]
+
+
+def bare_list(rng):
+    """A feature_list in which most single-valued entries are bare strings (ID, Parent, note, ...); half of the lists share
+    one Parent value on most features (equal bare strings on both sides), some notes are the empty string.
+    -> (records, build) with build in {"dict", "dict", "string"}; under "string" every attrs entry is a list (the Feature is
+    built from the attribute text) and bare strings arrive by item assignment only."""
+    feats = feature_list(rng)
+    build = rng.choice(["dict", "dict", "string"])
+    common = rng.choice(PARENTS) if rng.random() < 0.5 else None
+    for r in feats:
+        attrs = r["attrs"]
+        if common is not None and rng.random() < 0.8:
+            attrs[:] = [kv for kv in attrs if kv[0] != "Parent"] + [["Parent", [common]]]
+        if rng.random() < 0.08:
+            attrs[:] = [kv for kv in attrs if kv[0] != "note"] + [["note", [""]]]
+        assign = []
+        for kv in attrs:
+            if len(kv[1]) == 1 and rng.random() < 0.7:
+                if build == "dict" and rng.random() < 0.75:
+                    kv[1] = kv[1][0]                       # written into the dict as a bare string
+                elif kv[1][0] != "":
+                    assign.append([kv[0], kv[1][0]])       # same value, by item assignment
+        if rng.random() < 0.3:
+            # item assignment that replaces the values of a key, or adds a key
+            k = rng.choice(["Parent", "Parent", "note", "Name", "exon_number"])
+            assign.append([k, numeric_value(rng) if k == "exon_number" else rng.choice(PARENTS + WORDS)])
+        if build == "string":
+            attrs[:] = [kv for kv in attrs if kv[1] != [""]]
+        if assign:
+            r["assign"] = assign
+    return feats, build
+
+
+def bare_update(rng):
+    """update_attributes whose values are bare strings (never the key ID: see the check's ASSUMPTIONS)."""
+    upd = {}
+    for k in rng.sample(["Parent", "Parent", "note", "extra", "exon_number"], rng.choice([1, 1, 2])):
+        v = numeric_value(rng) if k == "exon_number" else rng.choice(PARENTS + WORDS)
+        upd[k] = v if rng.random() < 0.8 else [v]
+    if rng.random() < 0.2:
+        upd["ID"] = [rng.choice(["newid", "i7"])]
+    return upd
+
+
+# (b) hierarchies in which a transcript has exon-typed descendants BELOW its own exons
+NESTED_TYPES = ["miRNA", "miRNA", "polypeptide_region", "UTR_group"]
+
+
+def nested_model(rng):
+    """GFF3 records: gene -> transcript (primary_transcript / mRNA / ncRNA) -> exon, plus transcript -> nested feature
+    (miRNA, ...) -> exon, sometimes one level deeper, sometimes a nested exon that also names the transcript as a second
+    Parent.  The level-1 exon children of every feature have distinct starts.  Everything follows from the Parent values."""
+    recs = []
+    eid = 0
+    for g in range(rng.choice([1, 1, 2])):
+        gid = "g%d" % g
+        seqid = rng.choice(SEQIDS)
+        gstrand = rng.choice(STRANDS)
+        offset = rng.choice([0, 0, 5000, 131000])
+        recs.append({"seqid": seqid, "featuretype": "gene", "start": offset + 1, "end": offset + 3000, "strand": gstrand,
+                     "attrs": [["ID", [gid]]]})
+        for t in range(rng.choice([1, 1, 2])):
+            tid = "%s.t%d" % (gid, t)
+            mirna = rng.random() < 0.6
+            ttype = "primary_transcript" if mirna else rng.choice(["mRNA", "mRNA", "ncRNA"])
+            tstrand = rng.choice(STRANDS) if rng.random() < 0.3 else gstrand
+            recs.append({"seqid": seqid, "featuretype": ttype, "start": offset + 1, "end": offset + 3000, "strand": tstrand,
+                         "attrs": [["ID", [tid]], ["Parent", [gid]]]})
+            block = []
+
+            def exon(s, e, parents, j):
+                attrs = [["ID", ["e%d" % eid]], ["Parent", list(parents)]]
+                if rng.random() < 0.5:
+                    attrs.append(["exon_number", [str(j + 1)]])
+                return {"seqid": seqid, "featuretype": "exon", "start": s, "end": e,
+                        "strand": tstrand if rng.random() < 0.9 else rng.choice(STRANDS), "attrs": attrs}
+
+            nown = rng.choice([1, 1, 2, 2, 3, 4])
+            if rng.random() < 0.5:
+                # long exons, so that nested exons fit inside them (the two arms of a hairpin)
+                own, s = [], offset + rng.randrange(1, 30)
+                for _ in range(nown):
+                    e = s + rng.choice([30, 60, 120])
+                    own.append((s, e))
+                    s = e + rng.choice([1, 2, 40, 200, 500])
+            else:
+                own = exon_intervals(rng, nown, offset)
+            own_starts = set(s for s, _ in own)
+            for j, (s, e) in enumerate(own):
+                eid += 1
+                block.append(exon(s, e, [tid], j))
+            holders = [tid]
+            for k in range(rng.choice([1, 1, 2, 2, 3])):
+                nid = "%s.n%d" % (tid, k)
+                ntype = "miRNA" if mirna else rng.choice(NESTED_TYPES)
+                parent = tid if len(holders) == 1 or rng.random() < 0.8 else rng.choice(holders[1:])
+                holders.append(nid)
+                block.append({"seqid": seqid, "featuretype": ntype, "start": offset + 1, "end": offset + 3000,
+                              "strand": tstrand, "attrs": [["ID", [nid]], ["Parent", [parent]]]})
+                r = rng.random()
+                if r < 0.5:                      # inside / around one own exon
+                    s0, e0 = rng.choice(own)
+                    base = s0 + rng.randrange(0, max(1, e0 - s0 + 1)) - 1
+                elif r < 0.8:                    # anywhere over the transcript
+                    base = own[0][0] + rng.randrange(0, max(1, own[-1][1] - own[0][0] + 5)) - 1
+                else:
+                    base = offset + rng.randrange(0, 40)
+                ivs = exon_intervals(rng, rng.choice([1, 1, 2, 2, 3]), max(0, base - 15))
+                for j, (s, e) in enumerate(ivs):
+                    eid += 1
+                    parents = [nid]
+                    if parent == tid and rng.random() < 0.12 and s not in own_starts:
+                        parents = [nid, tid] if rng.random() < 0.5 else [tid, nid]     # also an exon of the transcript itself
+                        own_starts.add(s)
+                    block.append(exon(s, e, parents, j))
+            if rng.random() < 0.6:
+                rng.shuffle(block)
+            recs.extend(block)
+    if rng.random() < 0.25:
+        rng.shuffle(recs)
+    return recs
+
+
+def nested_options(rng, recs, call):
+    opts = {"exon_featuretype": "exon", "numeric_sort": rng.random() < 0.5}
+    if rng.random() < 0.5:
+        opts["by"], opts["featuretype"] = "grandparent", "gene"
+    else:
+        types = sorted(set(r["featuretype"] for r in recs) - {"gene", "exon"})
+        opts["by"], opts["featuretype"] = "parent", rng.choice(types)
+    if call == "introns":
+        opts["new_featuretype"] = rng.choice(["intron", "intron", "gap"])
+        opts["merge_attributes"] = rng.random() < 0.8
+    else:
+        opts["merge_attributes"] = True
+    return opts
